@@ -15,7 +15,7 @@ TABLE = {
                      "AcqVerif.C04.committed_frames_are_the_camera_frames", "AcqVerif.C04.channel_used_within_its_rules",
                      "AcqVerif.C04.undisturbed_acquisition_is_complete", "AcqVerif.C04.stopped_undisturbed_acquisition_is_complete", "AcqVerif.Runtime.DStop.micro", "AcqVerif.Runtime.DEnd.micro", "AcqVerif.Runtime.DFin.micro",
                      "AcqVerif.Runtime.DUse.micro", "AcqVerif.Runtime.DLog.micro", "AcqVerif.Runtime.DId.micro"],
-        "classes": ["single", "two", "mon", "slowmon", "restart", "delay", "abort", "stofault", "camempty", "avg1", "twofail"],
+        "classes": ["single", "two", "mon", "slowmon", "restart", "delay", "abort", "stofault", "camempty", "avg1", "twofail", "camfault"],
         "kinds": ("stored-", "camera-delivered", "packet-", "never-returns", "CRASH"),
         "what": "a finite acquisition that is started and stopped hands storage exactly the camera's N frames, in order, with ids, hardware ids "
                 "and pixel bytes unchanged (after an abort or a storage fault: a gap-free prefix), for one and two streams, wrapping rings, "
@@ -36,7 +36,7 @@ TABLE = {
         "theorems": ["AcqVerif.C07.stop_returns_armed_and_clean", "AcqVerif.C07.stop_has_joined", "AcqVerif.C07.start_over_finished_threads",
                      "AcqVerif.C07.idle_runtime_is_clean", "AcqVerif.C07.refusal_wakes_a_sleeping_source", "AcqVerif.C07.stop_never_waits_for_an_orphaned_sleeper",
                      "AcqVerif.Runtime.TInvAll.micro", "AcqVerif.Runtime.DWake.micro", "AcqVerif.Runtime.DStop.micro", "AcqVerif.Runtime.Reach.micro"],
-        "classes": ["abort", "abortmon", "holdmon", "trig", "avgabort", "stofault", "restart", "reconf", "twofail", "trigfault", "avgf32"],
+        "classes": ["abort", "abortmon", "holdmon", "trig", "avgabort", "stofault", "restart", "reconf", "twofail", "trigfault", "avgf32", "avgabortmon", "drop2"],
         "kinds": ("still-running-after", "state-after", "never-returns", "stored-", "camera-delivered", "CRASH", "monitor-frame-not-from"),
         "what": "abort/stop from any moment (ring full, client holding data, trigger wait, averaging, finished) return, leave workers finished, devices "
                 "stopped, runtime Armed, storage with a gap-free prefix, and the next acquisition complete",
@@ -46,7 +46,7 @@ TABLE = {
         "theorems": ["AcqVerif.C08.camera_stopped_once_per_start", "AcqVerif.C08.camera_started_only_when_armed", "AcqVerif.C08.camera_used_only_while_running",
                      "AcqVerif.C08.running_device_has_a_worker", "AcqVerif.C08.running_only_while_workers_alive", "AcqVerif.C08.not_running_after_workers_exit",
                      "AcqVerif.C08.unconfigured_stream_untouched", "AcqVerif.C08.start_while_running_refused"],
-        "classes": ["api", "switchfail", "restart", "two", "camfault", "reconf", "stofault", "stopawait", "twofail"],
+        "classes": ["api", "switchfail", "restart", "two", "camfault", "reconf", "stofault", "stopawait", "twofail", "drop2"],
         "kinds": ("device-", "state-", "still-running-after", "never-returns", "CRASH"),
         "what": "every device is opened/closed once, started only when armed, stopped once per start, used only between start and stop; "
                 "Running reported only while workers are alive",
